@@ -210,6 +210,13 @@ func checkCase(c Case, rec *evid.Rec) (err error) {
 		if st.Hard >= 0 && (rA.Nodes > st.Hard || rA2.Nodes > st.Hard) {
 			return fmt.Errorf("%s: %d nodes spent with a hard budget of %d", where, max(rA.Nodes, rA2.Nodes), st.Hard)
 		}
+		if rA.LateHit || rA2.LateHit {
+			// the ponderhit came from the watchdog's clock: nothing to compare on this move
+			if rec != nil {
+				rec.Class("ponderhit_by_watchdog")
+			}
+			break
+		}
 		if d := same(rA, rA2, false); d != "" {
 			return fmt.Errorf("%s: two engines in the same state given the same request: %s", where, d)
 		}
